@@ -5,13 +5,17 @@
     - [c_ptab]: for every source text used, what parse_operation_document +
       resolve_operation_extensions returned when called directly (panic / error text / import paths);
     - [c_etab]: for every (root, file map) state in which the history calls emit_js on a live
-      task, what a FRESH loader instance given exactly those files answered to emit_js;
+      task: (a) what [resolve_operation_imports], called directly on documents parsed from exactly
+      those files, returned (error text, or the fragment-definition names and the fragment-spread
+      names of the resolved document), with the module text; (b) what a FRESH loader instance
+      given exactly those files answered to emit_js.  The model runs on (a) ([staged_emit]); the
+      property ([holds]) is judged against (b); [agree] also demands that (a) predicts (b);
     - the calls actually made and the responses observed ([Trap] = the process aborted). *)
 From V Require Import Base.Util C20.Model C19.Model C19.Spec.
 
 Record case := mkCase {
   c_ptab : list (str * presult);
-  c_etab : list (str * list (str * str) * eresult);
+  c_etab : list (str * list (str * str) * rresult * eresult);
   c_calls : list call;
   c_resps : list resp
 }.
@@ -24,11 +28,28 @@ Fixpoint ptab_lookup (tab : list (str * presult)) (src : str) : presult :=
   | (k, v) :: r => if str_eqb k src then v else ptab_lookup r src
   end.
 
-Fixpoint etab_lookup (tab : list (str * list (str * str) * eresult)) (root : str) (fs : list (str * str)) : eresult :=
+Fixpoint etab_lookup (tab : list (str * list (str * str) * rresult * eresult)) (root : str) (fs : list (str * str)) : eresult :=
   match tab with
   | [] => EErr (s "<no emit oracle entry>")
-  | (k, kf, v) :: r => if str_eqb k root && list_eqb pair_eqb kf fs then v else etab_lookup r root fs
+  | (k, kf, _, v) :: r => if str_eqb k root && list_eqb pair_eqb kf fs then v else etab_lookup r root fs
   end.
+
+Fixpoint rtab_lookup (tab : list (str * list (str * str) * rresult * eresult)) (root : str) (fs : list (str * str)) : rresult :=
+  match tab with
+  | [] => RErr (s "<no emit oracle entry>")
+  | (k, kf, v, _) :: r => if str_eqb k root && list_eqb pair_eqb kf fs then v else rtab_lookup r root fs
+  end.
+
+Definition eres_eqb (a b : eresult) : bool :=
+  match a, b with
+  | ETrap, ETrap => true
+  | EErr x, EErr y | EOk x, EOk y => str_eqb x y
+  | _, _ => false
+  end.
+
+(** the staged computation predicts what the fresh instance answered, for every entry *)
+Definition stages_agree (tab : list (str * list (str * str) * rresult * eresult)) : bool :=
+  forallb (fun e => match e with (_, _, r, v) => eres_eqb (emit_of r) v end) tab.
 
 (** multiset equality of string lists *)
 Fixpoint remove_one (x : str) (l : list str) : option (list str) :=
@@ -56,9 +77,10 @@ Definition resp_eqb (m i : resp) : bool :=
   end.
 
 Definition model_run (c : case) : list resp :=
-  run (ptab_lookup (c_ptab c)) (etab_lookup (c_etab c)) init_state (c_calls c).
+  run (ptab_lookup (c_ptab c)) (staged_emit (rtab_lookup (c_etab c))) init_state (c_calls c).
 
-Definition agree (c : case) : bool := list_eqb resp_eqb (model_run c) (c_resps c).
+Definition agree (c : case) : bool :=
+  list_eqb resp_eqb (model_run c) (c_resps c) && stages_agree (c_etab c).
 
 Definition holds (c : case) : bool :=
   spec_check (ptab_lookup (c_ptab c)) (etab_lookup (c_etab c)) false s_init (c_calls c) (c_resps c).
